@@ -5,10 +5,11 @@
    early: interrupted (EINTR) or spurious wake-up), any number of threads where the usage allows it, any capacity / script lengths.
    "enabled" = the thread can take a step with choice 0, i.e. WITHOUT counting spurious
    wake-ups as progress.  "Empty" / "full" are the code's own tests on cursors / counts. *)
-From MV Require Import C03.Model C03.ProofsCommon.
-From MV Require Import C03.ProofsChanF C03.ProofsChanM C03.ProofsRing C03.ProofsAbq C03.ProofsDbuf C03.ProofsBalanced C03.Variants.
+From MV Require Import C03.Model C03.ModelK C03.ModelRB C03.ProofsCommon.
+From MV Require Import C03.ProofsChanF C03.ProofsChanM C03.ProofsRing C03.ProofsAbq C03.ProofsDbuf C03.ProofsDbufNb C03.ProofsBalanced C03.ProofsChanK C03.ProofsChanK2 C03.ProofsRB C03.ProofsLocks C03.Variants.
 From MV Require Import C03.FairGen C03.ProofsFairChanF C03.ProofsFairChanF2 C03.ProofsFairRing C03.ProofsFairRing2.
 From MV Require C04.Model C04.ProofsLock C03.ProofsSync.
+From MV Require Import C03.Futex C03.ProofsFutex gen.Params_C03.
 Local Open Scope Z_scope.
 
 (* ---------- (a) channel, futex-waiting reader (tid 0 reader, tids 1..n-1 writers) ---------- *)
@@ -163,12 +164,12 @@ Theorem abq_balanced_scripts_never_stuck : forall n nc cap ks sched, 1 <= cap ->
 Proof. exact abq_balanced_no_deadlock_all. Qed.
 Print Assumptions abq_balanced_scripts_never_stuck.
 
-(* ---------- (e) double buffer (tid 0 reader, the rest writers) ---------- *)
+(* ---------- (e) double buffer (tid 0 reader, the rest writers; nb = buf->non_blocking) ---------- *)
 
 (* some thread can run, or all finished, or the reader sleeps on an EMPTY back buffer with every
    writer finished, or the reader has FINISHED (stopped consuming) and the remaining writers sleep *)
-Theorem dbuf_no_deadlock : forall n cap need wk sched, 1 <= cap ->
-  let s := exec dsys dstep (dinit n cap need wk) sched in
+Theorem dbuf_no_deadlock : forall n cap nb need wk sched, 1 <= cap ->
+  let s := exec dsys dstep (dinit n cap nb need wk) sched in
   (exists t, (t < n)%nat /\ d_enabled s t) \/
   (forall t, (t < n)%nat -> d_done s t) \/
   (d_back s = 0 /\ forall t, (t < n)%nat -> d_pc (d_thr s t) = DRAsleep \/ d_done s t) \/
@@ -178,8 +179,8 @@ Print Assumptions dbuf_no_deadlock.
 
 (* why notify_ONE on cv_not_full suffices: while the reader has not finished, a writer asleep on
    cv_not_full never means that everybody is stuck *)
-Theorem dbuf_notify_one_suffices : forall n cap need wk sched w r, 1 <= cap ->
-  let s := exec dsys dstep (dinit n cap need wk) sched in
+Theorem dbuf_notify_one_suffices : forall n cap nb need wk sched w r, 1 <= cap ->
+  let s := exec dsys dstep (dinit n cap nb need wk) sched in
   (w < n)%nat -> d_pc (d_thr s w) = DWAsleep ->
   (r < n)%nat -> d_is_reader (d_pc (d_thr s r)) = true ->
   exists t, (t < n)%nat /\ d_enabled s t.
@@ -188,9 +189,9 @@ Print Assumptions dbuf_notify_one_suffices.
 
 (* balanced usage (the reader asks for exactly as many items as the writers write): no blocked
    end state at all; no writer is left asleep behind a notify_one *)
-Theorem dbuf_balanced_scripts_never_stuck : forall n cap need wk sched, 1 <= cap ->
-  tsum d_ww (d_thr (dinit n cap need wk)) n = tsum d_rw (d_thr (dinit n cap need wk)) n ->
-  let s := exec dsys dstep (dinit n cap need wk) sched in
+Theorem dbuf_balanced_scripts_never_stuck : forall n cap nb need wk sched, 1 <= cap ->
+  tsum d_ww (d_thr (dinit n cap nb need wk)) n = tsum d_rw (d_thr (dinit n cap nb need wk)) n ->
+  let s := exec dsys dstep (dinit n cap nb need wk) sched in
   (exists t, (t < n)%nat /\ d_enabled s t) \/ (forall t, (t < n)%nat -> d_done s t).
 Proof. exact dbuf_balanced_no_deadlock_all. Qed.
 Print Assumptions dbuf_balanced_scripts_never_stuck.
@@ -205,8 +206,8 @@ Theorem dbuf_read_wakes_one_sleeping_writer : forall s t ch s' l,
 Proof. exact d_read_wakes_one. Qed.
 Print Assumptions dbuf_read_wakes_one_sleeping_writer.
 
-Theorem dbuf_no_lost_wakeup : forall n cap need wk sched t, 1 <= cap ->
-  let s := exec dsys dstep (dinit n cap need wk) sched in
+Theorem dbuf_no_lost_wakeup : forall n cap nb need wk sched t, 1 <= cap ->
+  let s := exec dsys dstep (dinit n cap nb need wk) sched in
   (t < n)%nat ->
   (d_pc (d_thr s t) = DRAsleep ->
      d_back s = 0 \/ exists u, (u < n)%nat /\ d_t_ne (d_pc (d_thr s u)) = true) /\
@@ -214,6 +215,191 @@ Theorem dbuf_no_lost_wakeup : forall n cap need wk sched t, 1 <= cap ->
      0 < d_back s \/ exists u, (u < n)%nat /\ d_t_nf (d_pc (d_thr s u)) = true).
 Proof. exact dbuf_no_lost_wakeup_all. Qed.
 Print Assumptions dbuf_no_lost_wakeup.
+
+(* NON-BLOCKING mode (a write that finds the back buffer full unlocks and returns MUGGLE_ERR_FULL,
+   the client retries): some thread can run, or all finished, or the reader sleeps on an EMPTY back
+   buffer with every writer finished -- "the unfinished writers are all asleep" is unreachable *)
+Theorem dbuf_nonblocking_no_deadlock : forall n cap need wk sched, 1 <= cap ->
+  let s := exec dsys dstep (dinit n cap true need wk) sched in
+  (exists t, (t < n)%nat /\ d_enabled s t) \/
+  (forall t, (t < n)%nat -> d_done s t) \/
+  (d_back s = 0 /\ forall t, (t < n)%nat -> d_pc (d_thr s t) = DRAsleep \/ d_done s t).
+Proof. exact dbuf_nb_no_deadlock_all. Qed.
+Print Assumptions dbuf_nonblocking_no_deadlock.
+
+(* an unfinished writer of a non-blocking double buffer never means that everybody is stuck *)
+Theorem dbuf_nonblocking_writer_never_stuck : forall n cap need wk sched w, 1 <= cap ->
+  let s := exec dsys dstep (dinit n cap true need wk) sched in
+  (w < n)%nat -> d_is_reader (d_pc (d_thr s w)) = false -> ~ d_done s w ->
+  exists t, (t < n)%nat /\ d_enabled s t.
+Proof. exact dbuf_nb_writer_never_stuck_all. Qed.
+Print Assumptions dbuf_nonblocking_writer_never_stuck.
+
+(* mode separation: no writer of a non-blocking buffer ever waits on cv_not_full; no write to a
+   blocking buffer is ever refused *)
+Theorem dbuf_nonblocking_writers_never_sleep : forall n cap need wk sched t,
+  let s := exec dsys dstep (dinit n cap true need wk) sched in
+  d_sleepy (d_pc (d_thr s t)) = false.
+Proof. exact dbuf_nb_writers_never_sleep_all. Qed.
+Print Assumptions dbuf_nonblocking_writers_never_sleep.
+
+Theorem dbuf_blocking_never_returns_full : forall n cap need wk sched t,
+  let s := exec dsys dstep (dinit n cap false need wk) sched in
+  d_fullret (d_pc (d_thr s t)) = false.
+Proof. exact dbuf_blocking_never_returns_full_all. Qed.
+Print Assumptions dbuf_blocking_never_returns_full.
+
+(* EVERY RETURN PATH RELEASES THE MUTEX (both modes): a thread outside its call -- before it, after
+   an OK return, after a FULL return, in its retry yield, finished -- never owns the mutex ... *)
+Theorem dbuf_calls_release_mutex : forall n cap nb need wk sched t, 1 <= cap ->
+  let s := exec dsys dstep (dinit n cap nb need wk) sched in
+  d_outside (d_pc (d_thr s t)) = true -> d_m s <> Some t.
+Proof. exact dbuf_calls_release_mutex_all. Qed.
+Print Assumptions dbuf_calls_release_mutex.
+
+(* ... the owner is always a thread inside a call between its lock and its unlock / wait, and it
+   can take a step (so a held mutex never blocks the others for ever) *)
+Theorem dbuf_mutex_owner_is_inside_and_runnable : forall n cap nb need wk sched u, 1 <= cap ->
+  let s := exec dsys dstep (dinit n cap nb need wk) sched in
+  d_m s = Some u -> (u < n)%nat /\ d_holds (d_pc (d_thr s u)) = true /\ d_enabled s u.
+Proof. exact dbuf_mutex_owner_is_inside_all. Qed.
+Print Assumptions dbuf_mutex_owner_is_inside_and_runnable.
+
+(* the FULL return itself: the mutex acquired by the call is free afterwards, and nothing else has
+   changed (back buffer, the writer's script -- it retries the same item --, the other threads) *)
+Theorem dbuf_full_return_unlocks : forall s t ch s' l,
+  d_pc (d_thr s t) = DWUnlockF -> dstep s t ch = Some (s', l) ->
+  d_m s' = None /\ d_pc (d_thr s' t) = DWSegF /\ d_k (d_thr s' t) = d_k (d_thr s t) /\
+  d_back s' = d_back s /\ (forall u, u <> t -> d_thr s' u = d_thr s u).
+Proof. exact d_full_return_unlocks. Qed.
+Print Assumptions dbuf_full_return_unlocks.
+
+(* ---------- (g) channel, every writer-lock kind x every reader mode (C03/ModelK.v) ---------- *)
+(* rm: KRSync (futex reader) | KRMutex (condvar reader) | KRBusy (busy loop: spin-based waiting);
+   lk: KLSingle (no writer lock) | KLMutex (write_mutex) | KLSpin (test-and-set / yield; clear) |
+   KLSync (synclock: weak CAS / futex wait; store + wake_one).  Schedules include spurious weak-CAS
+   failures, early futex returns (reader and lock word) and spurious condvar wake-ups. *)
+
+(* some thread can run, or all finished, or the reader sleeps on an EMPTY channel with every writer
+   finished; in particular never "every unfinished writer asleep on the lock word" *)
+Theorem chan_wordlock_no_deadlock : forall n cap rm lk nreads wk sched,
+  let s := exec ksys kstep (kinit n cap rm lk nreads wk) sched in
+  (exists t, (t < n)%nat /\ k_enabled s t) \/
+  (forall t, (t < n)%nat -> k_done s t) \/
+  ((k_pc (k_thr s 0%nat) = KRBlocked \/ k_pc (k_thr s 0%nat) = KMAsleep) /\ k_empty s /\
+   forall t, (0 < t < n)%nat -> k_done s t).
+Proof. exact chan_wordlock_no_deadlock_all. Qed.
+Print Assumptions chan_wordlock_no_deadlock.
+
+(* per sleeper: the futex reader sleeps on the value it compared with its read position and the word
+   still has it or a writer is between its store and its wake; the condvar reader sleeps on an empty
+   channel or a writer is between its cursor update and its notify; a writer asleep on the synclock
+   word: the word is LOCK and a holder is inside, or an unlocker is between its store and its wake,
+   or a writer is about to retry; and whenever work remains for the sleeper somebody can run *)
+Theorem chan_wordlock_no_lost_wakeup : forall n cap rm lk nreads wk sched t,
+  let s := exec ksys kstep (kinit n cap rm lk nreads wk) sched in
+  (k_pc (k_thr s t) = KRBlocked ->
+     t = 0%nat /\ k_reg (k_thr s t) = ridx (k_rcur s + 1) (k_cap s) /\
+     (k_wcur s = k_reg (k_thr s t) \/ exists u, (u < n)%nat /\ k_pending (k_thr s u) = true)) /\
+  (k_pc (k_thr s t) = KMAsleep ->
+     t = 0%nat /\ (k_empty s \/ exists u, (u < n)%nat /\ k_pending (k_thr s u) = true)) /\
+  (k_pc (k_thr s t) = KWLBlocked ->
+     (k_lock s = 1 /\ exists u, (u < n)%nat /\ k_holds (k_pc (k_thr s u)) = true) \/
+     (exists u, (u < n)%nat /\ k_lwaker (k_pc (k_thr s u)) = true) \/
+     (exists u, (u < n)%nat /\ k_about (k_thr s u) = true)) /\
+  ((k_pc (k_thr s t) = KRBlocked \/ k_pc (k_thr s t) = KMAsleep \/ k_pc (k_thr s t) = KWLBlocked) ->
+     ~ k_empty s \/ k_pc (k_thr s t) = KWLBlocked -> exists u, (u < n)%nat /\ k_enabled s u).
+Proof. exact chan_wordlock_no_lost_wakeup_all. Qed.
+Print Assumptions chan_wordlock_no_lost_wakeup.
+
+(* EVERY RETURN PATH RELEASES WHAT THE CALL ACQUIRED -- MUGGLE_ERR_FULL included: the lock word is
+   LOCK only while a writer is inside muggle_channel_write between acquire and release; read_mutex
+   is owned only by a thread inside a call between lock and unlock / wait, and that thread can run *)
+Theorem chan_wordlock_held_only_inside : forall n cap rm lk nreads wk sched,
+  let s := exec ksys kstep (kinit n cap rm lk nreads wk) sched in
+  (k_lock s = 1 -> exists u, (u < n)%nat /\ k_holds (k_pc (k_thr s u)) = true) /\
+  (forall u, k_rm s = Some u -> (u < n)%nat /\ k_rmholds (k_pc (k_thr s u)) = true /\ k_enabled s u) /\
+  (k_lock s = 0 \/ k_lock s = 1).
+Proof. exact chan_wordlock_held_only_inside_all. Qed.
+Print Assumptions chan_wordlock_held_only_inside.
+
+(* when every thread is in client code (before a call, after an OK or a FULL return, in its retry
+   yield, finished) the lock word is UNLOCK and read_mutex is free *)
+Theorem chan_wordlock_calls_release_locks : forall n cap rm lk nreads wk sched,
+  let s := exec ksys kstep (kinit n cap rm lk nreads wk) sched in
+  (forall t, (t < n)%nat -> k_outside (k_pc (k_thr s t)) = true) -> k_lock s = 0 /\ k_rm s = None.
+Proof. exact chan_wordlock_calls_release_locks_all. Qed.
+Print Assumptions chan_wordlock_calls_release_locks.
+
+(* fn_unlock is executed on every path (ret is looked at only afterwards): after it the word is
+   UNLOCK whatever fn_write returned, and nothing else has changed *)
+Theorem chan_wordlock_release_on_every_path : forall s t ch s' l,
+  k_pc (k_thr s t) = KWRel -> kstep s t ch = Some (s', l) ->
+  k_lock s' = 0 /\ k_ok (k_thr s' t) = k_ok (k_thr s t) /\ k_k (k_thr s' t) = k_k (k_thr s t) /\
+  k_wcur s' = k_wcur s /\ k_rcur s' = k_rcur s /\ k_rm s' = k_rm s /\
+  (forall u, u <> t -> k_thr s' u = k_thr s u).
+Proof. exact k_release_unlocks. Qed.
+Print Assumptions chan_wordlock_release_on_every_path.
+
+(* a refusal (MUGGLE_ERR_FULL) happens only on a channel that is full by the code's own test, changes
+   neither cursor nor lock, and goes straight to the release (to the client when there is no writer lock) *)
+Theorem chan_full_return_goes_to_release : forall s t ch s' l,
+  k_pc (k_thr s t) = KWChk -> kstep s t ch = Some (s', l) -> k_ok (k_thr s' t) = false ->
+  k_pc (k_thr s' t) = (if lk_locked (k_lk s) then KWRel else KWYieldF) /\
+  ridx (k_wcur s + 1) (k_cap s) = k_reg (k_thr s t) /\
+  k_lock s' = k_lock s /\ k_wcur s' = k_wcur s /\ k_rcur s' = k_rcur s.
+Proof. exact k_full_goes_to_release. Qed.
+Print Assumptions chan_full_return_goes_to_release.
+
+(* SPIN-BASED WAITING (READ_BUSY), every writer-lock kind: some thread can run or all have finished -- no
+   blocked end state at all; and a thread at a reader program point can always take a step *)
+Theorem chan_busy_no_deadlock : forall n cap lk nreads wk sched,
+  let s := exec ksys kstep (kinit n cap KRBusy lk nreads wk) sched in
+  (exists t, (t < n)%nat /\ k_enabled s t) \/ (forall t, (t < n)%nat -> k_done s t).
+Proof. exact chan_busy_no_deadlock_all. Qed.
+Print Assumptions chan_busy_no_deadlock.
+
+Theorem chan_busy_reader_never_blocks : forall n cap lk nreads wk sched t,
+  let s := exec ksys kstep (kinit n cap KRBusy lk nreads wk) sched in
+  (t < n)%nat -> k_is_reader (k_pc (k_thr s t)) = true -> k_enabled s t.
+Proof. exact chan_busy_reader_never_blocks_all. Qed.
+Print Assumptions chan_busy_reader_never_blocks.
+
+(* ---------- (h) ring buffer with BUSY-LOOP readers (spin-based waiting) ---------- *)
+(* every thread that has not finished can take a step in every reachable state: nobody ever blocks,
+   no schedule ends in a deadlock (spinlock or single writer, any number of readers / writers) *)
+Theorem ring_busy_never_blocks : forall n nr cap wl ks sched t,
+  let s := exec bsys bstep (binit n nr cap wl ks) sched in
+  (t < n)%nat -> b_done s t \/ b_enabled s t.
+Proof. exact ring_busy_never_blocks_all. Qed.
+Print Assumptions ring_busy_never_blocks.
+
+Theorem ring_busy_no_deadlock : forall n nr cap wl ks sched,
+  let s := exec bsys bstep (binit n nr cap wl ks) sched in
+  (exists t, (t < n)%nat /\ b_enabled s t) \/ (forall t, (t < n)%nat -> b_done s t).
+Proof. exact ring_busy_no_deadlock_all. Qed.
+Print Assumptions ring_busy_no_deadlock.
+
+(* ---------- every return path releases the mutexes, models (a) (b) (c) (d) ---------- *)
+(* a thread in client code (outside muggle_channel_write / _read, _put / _take, ring read) never owns
+   write_mutex / read_mutex / the queue mutex; MUGGLE_ERR_FULL returns included *)
+Theorem chan_futex_calls_release_write_mutex : forall n cap wl nreads wk sched t,
+  let s := exec fsys fstep (finit n cap wl nreads wk) sched in
+  f_outside (f_pc (f_thr s t)) = true -> f_wm s <> Some t.
+Proof. exact chan_futex_calls_release_write_mutex_all. Qed.
+Print Assumptions chan_futex_calls_release_write_mutex.
+
+Theorem chan_cv_calls_release_mutexes : forall n cap wl nreads wk sched t,
+  let s := exec msys mstep (minit n cap wl nreads wk) sched in
+  m_outside (m_pc (m_thr s t)) = true -> m_wm s <> Some t /\ m_rm s <> Some t.
+Proof. exact chan_cv_calls_release_mutexes_all. Qed.
+Print Assumptions chan_cv_calls_release_mutexes.
+
+Theorem abq_calls_release_mutex : forall n nc cap ks sched t, 1 <= cap ->
+  let s := exec qsys qstep (qinit n nc cap ks) sched in
+  q_outside (q_pc (q_thr s t)) = true -> q_m s <> Some t.
+Proof. exact abq_calls_release_mutex_all. Qed.
+Print Assumptions abq_calls_release_mutex.
 
 (* ---------- (f) synclock (C04's model of synclock.c, repaired loop) ---------- *)
 
@@ -239,6 +425,37 @@ Theorem synclock_no_lost_wakeup : forall P n it sched t,
              C03.ProofsSync.l_enabled P s u).
 Proof. exact C03.ProofsSync.synclock_no_lost_wakeup_all. Qed.
 Print Assumptions synclock_no_lost_wakeup.
+
+(* ---------- the futex itself: muggle/c/sync/sync_obj_futex.c ---------- *)
+(* harness/vsched REPLACES that file by the scheduler's compare-and-block / wake-n, which is also what the
+   models transcribe.  code_futex (gen/Params_C03.v, regenerated on every run) is what the repository's
+   muggle_sync_wait / wake_one / wake_all were observed to hand to syscall(); the obligation: it is one
+   futex call with FUTEX_WAIT resp. FUTEX_WAKE on the PROCESS-PRIVATE key for all three (a shared
+   waiter is never found by a private wake), the caller's address, value and timeout, counts 1 / INT_MAX *)
+Theorem futex_source_asks_for_the_scheduler_semantics : futex_calls_ok code_futex = true.
+Proof. vm_compute. reflexivity. Qed.
+Print Assumptions futex_source_asks_for_the_scheduler_semantics.
+
+(* ... and under the semantics of futex(2) (C03/Futex.v: kernel_futex) each observed call then IS the
+   scheduler's operation: wait = atomic compare-and-block, wake_one wakes one waiter queued by such a
+   wait if there is one, wake_all every one *)
+Theorem futex_calls_have_the_scheduler_semantics :
+  (forall o, In o (fo_wait code_futex) -> forall q word, q_shared q = O ->
+     let r := kernel_futex q word (o_op o) (o_val o) true in
+     let m := sched_wait (q_priv q) word (o_in_val o) in
+     o_addr_ok o = true /\ q_priv (fst r) = fst m /\ q_shared (fst r) = O /\
+     (snd m = true -> snd r = KBlock) /\ (snd m = false -> snd r = KRet (-1) /\ fst r = q)) /\
+  (forall o, In o (fo_wake_one code_futex) -> forall q word tn, q_shared q = O ->
+     let r := kernel_futex q word (o_op o) (o_val o) tn in
+     let m := sched_wake_one (q_priv q) in
+     o_addr_ok o = true /\ q_priv (fst r) = fst m /\ q_shared (fst r) = O /\ snd r = KRet (Z.of_nat (snd m))) /\
+  (forall o, In o (fo_wake_all code_futex) -> forall q word tn, q_shared q = O -> Z.of_nat (q_priv q) <= ABI_INT_MAX ->
+     let r := kernel_futex q word (o_op o) (o_val o) tn in
+     let m := sched_wake_all (q_priv q) in
+     o_addr_ok o = true /\ q_priv (fst r) = fst m /\ q_shared (fst r) = O /\ snd r = KRet (Z.of_nat (snd m))) /\
+  fo_wait code_futex <> [] /\ fo_wake_one code_futex <> [] /\ fo_wake_all code_futex <> [].
+Proof. exact (futex_calls_ok_sound code_futex futex_source_asks_for_the_scheduler_semantics). Qed.
+Print Assumptions futex_calls_have_the_scheduler_semantics.
 
 (* ---------- FAIR SCHEDULES: balanced scripts terminate, nobody is left blocked ---------- *)
 (* Fairness as in coq/C14/ProofsFair.v: a schedule is a sequence of rounds, each round schedules
@@ -341,6 +558,17 @@ Theorem refuted_single_condition_variable :
   (forall t, (t < 3)%nat -> qstep_onecv s t 0 = None).
 Proof. exact abq_single_cv_deadlocks. Qed.
 Print Assumptions refuted_single_condition_variable.
+
+(* non-blocking double buffer whose MUGGLE_ERR_FULL return forgets the unlock: the refused writer
+   is back in client code owning the mutex; its retry and the reader block for ever with an item
+   waiting in the back buffer *)
+Theorem refuted_full_return_keeping_mutex :
+  let s := exec dsys dstep_fullkeeps (dinit 2 1 true 2 (fun _ => 2%nat)) d_fullkeeps_sched in
+  d_back s = 1 /\ d_m s = Some 1%nat /\
+  d_pc (d_thr s 1%nat) = DWLock /\ d_pc (d_thr s 0%nat) = DRLock /\
+  (forall t, (t < 2)%nat -> dstep_fullkeeps s t 0 = None).
+Proof. exact dbuf_full_return_keeping_mutex_deadlocks. Qed.
+Print Assumptions refuted_full_return_keeping_mutex.
 
 (* `if` instead of `while` around a condvar wait + one spurious wake-up: take from an empty queue *)
 Theorem refuted_if_instead_of_while :
